@@ -19,7 +19,7 @@ EXPLANATION = (
     "expand_empty_elements, ...) exists.  V4 numbers: the weight is rendered by a format with a single plain Display argument of "
     "type f64 and parsed with str::parse::<f64>; the <data> element is written exactly when !weight.is_nan() and an edge read "
     "without <data> keeps Edge::new's NaN.  V5 order: nodes are written by iterating the position-ordered node list and read back "
-    "with Vec::push in document order.  V6: the file variants add only file I/O around the string variants.  V10: an unescaped attribute value reaches the node name / edge endpoint through no content-changing string operation.  NOT decided: the "
+    "with Vec::push in document order.  V6: the file variants add only file I/O around the string variants.  V10: an unescaped attribute value reaches the node name / edge endpoint through no content-changing string operation.  V11: element refusals depend on the presence of an attribute, never on the content of its value.  NOT decided: the "
     "round-trip equality itself; quick-xml's escape/unescape and f64 Display/FromStr being inverses are trusted."
 )
 TRUSTED = [
@@ -542,6 +542,38 @@ def run(ctx):
             ctx.require(not bad, "V10", "verbatim|%s|%d" % (b.short, n10), "%s in %s passes through no content-changing string operation" % (what, b.short.split("::")[-1]),
                         "%s in %s passes through %s: names that differ only in what that operation removes or rewrites (outer blanks, case ..) are merged or renamed on reading, so a written graph does not come back with its own node names" % (what, b.short, "/".join(sorted(bad))), loc_str(t.span))
     ctx.floor("V10", "value_flows", n10, 3)
+
+    # ------------------------------------------------------------------ V11 refusals look at presence, not content
+    # every name is a legal node name -- the empty string too, and the writer writes it (id="", source="").  The reader's
+    # element helpers may refuse an element because a required attribute is ABSENT (contains_key / get(..) is None);
+    # a refusal that depends on what the value IS (is_empty, len, a comparison) rejects documents the writer produces.
+    ctx.rule("V11", "the reader refuses a <node> / <edge> element only for an absent attribute, never for the content of a present one")
+    from engines import canon_exists as _ce11
+
+    n11 = 0
+    for hp in ("graphml::add_edge", "graphml::add_node"):
+        hb = prog.one(hp)
+        for b11 in [hb] + list(prog.closures_of(hb.path)):
+            f11 = flows.of(b11)
+            for t in b11.calls():
+                if not (t.callee and t.callee.short.endswith("get_read_error")):
+                    continue
+                n11 += 1
+                bad11 = []
+                for (te, v, a) in controlling_atoms(f11, t.bb):
+                    if not isinstance(te, tuple):
+                        continue
+                    if te[0] == "call" and te[1].split("::")[-1] in ("contains_key", "is_some", "is_none", "contains"):
+                        continue
+                    if te[0] == "discr":
+                        continue
+                    if _ce11(f11, te, v, a) is not None:
+                        continue
+                    if desc_mentions(te, lambda x: x[0] == "call" and x[1].split("::")[-1] in ("get", "get_attributes_as_hashmap", "index", "remove", "get_key_value")):
+                        bad11.append(fmt_desc(te)[:100])
+                ctx.require(not bad11, "V11", "refusal|%s|%d" % (b11.short.split("::")[-1], n11), "the refusal in %s depends on the presence of the attribute only" % b11.short.split("::")[-1],
+                            "%s refuses an element depending on the CONTENT of an attribute value (%s): the writer emits such values (an empty node name is written as \"\"), so a document the library wrote is rejected on reading" % (b11.short, "; ".join(bad11)), loc_str(t.span))
+    ctx.floor("V11", "element_refusals", n11, 3)
 
     # ------------------------------------------------------------------ V6 file = string
     ctx.rule("V6", "file variants wrap the string variants with file I/O only")
